@@ -571,7 +571,10 @@ where
                             match &*attr_name {
                                 "class" if !is_component => has_class_binding = true,
                                 "style" if !is_component => has_style_binding = true,
-                                "key" | "on" | "ref" => {}
+                                "key" | "ref" => {}
+                                // turned into listeners with keys only known at runtime (the
+                                // vnode gets FULL_PROPS); without `transformOn` they are ordinary props
+                                "on" | "nativeOn" if self.options.transform_on => {}
                                 _ => {
                                     dynamic_props.insert(attr_name.clone());
                                 }
